@@ -50,8 +50,9 @@ func c09Fault(c *Ctx, run *ev.Run) {
 			return
 		}
 		for _, to := range []string{"gob", "json", "csv"} {
-			for _, k := range ks {
-				if c.Quick() && (k+set)%2 == 1 {
+			// also the very last writes: an error that is only noticed by the next call has no next call there
+			for _, k := range append(append([]int{}, ks...), n-1, n, n+1, n+2) {
+				if c.Quick() && (k+set)%2 == 1 && k < n-1 {
 					continue
 				}
 				out := filepath.Join(dir, "out."+to)
@@ -96,6 +97,86 @@ func c09Fault(c *Ctx, run *ev.Run) {
 					run.Count("write_fault_runs_where_the_fault_hit", 1)
 				}
 				run.Distinct(fmt.Sprintf("write-fault:%d:%s:%d:%d", set, to, k, len(got)))
+			}
+		}
+	}
+}
+
+// failingWriter accepts the first okWrites Write calls and fails all later ones.
+type failingWriter struct {
+	buf      bytes.Buffer
+	okWrites int
+	writes   int
+}
+
+func (w *failingWriter) Write(p []byte) (int, error) {
+	w.writes++
+	if w.writes > w.okWrites {
+		return 0, fmt.Errorf("verif: injected write error at write %d", w.writes)
+	}
+	return w.buf.Write(p)
+}
+
+// c09EncodeFault: an Encode call that reports success has emitted its record
+// as a whole - also when the underlying writer starts failing at the k-th write.
+func c09EncodeFault(c *Ctx, run *ev.Run) {
+	rng := c.Rand("encode-fault")
+	nSets := c.Pick(6, 120)
+	for set := 0; set < nSets; set++ {
+		n := 3 + rng.Intn(12)
+		recs := make([]vegeta.Result, n)
+		for i := range recs {
+			r, err := codecGenResult(rng, codecGen{MaxBody: 300})
+			if err != nil {
+				run.Inconclusive(err.Error())
+				return
+			}
+			recs[i] = r
+		}
+		for _, codec := range []string{"gob", "json", "csv"} {
+			// how many writes does a healthy run issue?
+			probe := &failingWriter{okWrites: 1 << 30}
+			enc := codecNewEncoder(codec, probe)
+			for i := range recs {
+				if err, pan := codecSafeEncode(enc, &recs[i]); err != nil || pan != nil {
+					run.Inconclusive(fmt.Sprintf("encoder failed on a healthy writer: %v %v", err, pan))
+					return
+				}
+			}
+			for k := 0; k <= probe.writes; k++ {
+				fw := &failingWriter{okWrites: k}
+				enc := codecNewEncoder(codec, fw)
+				succeeded := 0
+				for i := range recs {
+					err, pan := codecSafeEncode(enc, &recs[i])
+					if pan != nil {
+						run.Violate("C09/encode-fault/"+codec+"/panic", fmt.Sprintf("%s encoder panics when its writer fails at write %d: %v", codec, k+1, pan), map[string]any{"codec": codec, "fail_at_write": k + 1, "records": codecDumpAll(recs)})
+						break
+					}
+					if err != nil {
+						break
+					}
+					succeeded++
+				}
+				got, _, _ := codecDecodeAll(codecNewDecoder(codec, bytes.NewReader(fw.buf.Bytes())), n+4)
+				run.Eval(1)
+				run.Count("encode_fault_runs", 1)
+				if len(got) < succeeded {
+					run.Violate("C09/encode-fault/"+codec+"/success-reported-for-unwritten-record",
+						fmt.Sprintf("%s encoder: the writer fails from write %d on; Encode reported success for %d records, the sink holds only %d whole records", codec, k+1, succeeded, len(got)),
+						map[string]any{"codec": codec, "fail_at_write": k + 1, "encode_successes": succeeded, "whole_records_in_sink": len(got), "records": codecDumpAll(recs)})
+					break
+				}
+				for i := range got {
+					if d := codecDiff(&recs[i], &got[i]); len(d) > 0 {
+						run.Violate("C09/encode-fault/"+codec+"/not-a-prefix", fmt.Sprintf("%s encoder with a writer failing at write %d: record %d in the sink differs (%s)", codec, k+1, i, codecDiffNames(d)),
+							map[string]any{"codec": codec, "fail_at_write": k + 1, "records": codecDumpAll(recs)})
+						break
+					}
+				}
+				if k < probe.writes {
+					run.Distinct(fmt.Sprintf("encode-fault:%d:%s:%d", set, codec, k))
+				}
 			}
 		}
 	}
